@@ -1724,14 +1724,19 @@ func splitTopLevelArgs(s string) []string {
 	return append(out, s[start:])
 }
 
-// placeholderSafe maps every character of s that cannot be part of an identifier to '_'.
+// placeholderSafe rewrites s into an identifier: letters and digits stay, every other character
+// (including '_' itself) becomes '_' followed by its code in hex and another '_'. Different texts
+// get different identifiers - nth_value(a-b, 1) and nth_value(a+b, 1) must not share a placeholder.
 func placeholderSafe(s string) string {
-	return strings.Map(func(r rune) rune {
-		if r == '_' || (r >= 'a' && r <= 'z') || (r >= 'A' && r <= 'Z') || (r >= '0' && r <= '9') {
-			return r
+	var b strings.Builder
+	for _, r := range s {
+		if (r >= 'a' && r <= 'z') || (r >= 'A' && r <= 'Z') || (r >= '0' && r <= '9') {
+			b.WriteRune(r)
+			continue
 		}
-		return '_'
-	}, s)
+		fmt.Fprintf(&b, "_%x_", r)
+	}
+	return b.String()
 }
 
 // isComplexAggregationExpression checks if an expression contains multiple aggregation functions or operators with aggregation functions
